@@ -260,14 +260,16 @@ def form_case(ctx, els, directed=None):
         bm = sorted(bm, key=str)
         if bi != bm:
             ctx.mismatch("bind calculate per question", case, bi, bm)
-        dyn = {n: d for n, d in m["dyn"]}
+        mdyn = {n: d for n, d in m["dyn"]}
     else:
-        # the oracle needs the model's classification of the defaults even when the mechanism model abstains
-        dyn = {}
-        for q, _, _ in walked:
-            if q["default"]:
-                v = ctx.driver.call("lexer.dynamic", s=q["default"], type=q["type"])
-                dyn[q["name"]] = bool(v) if not isinstance(v, dict) else None
+        mdyn = None
+    # the oracle's classification: the PINNED lexicon and sets (= default_is_dynamic of the source as long as
+    # lexer_rules_pinned / dynamic_sets_pinned / classification_is_pinned check; independent of the source afterwards)
+    with_default = [q for q, _, _ in walked if q["default"]]
+    pinned = ctx.driver.call("lexer.pinned", items=[[q["default"], q["type"]] for q in with_default]) if with_default else []
+    dyn = {q["name"]: bool(b) for q, b in zip(with_default, pinned)}
+    if mdyn is not None and any(mdyn.get(n) != b for n, b in dyn.items()):
+        ctx.mismatch("classification of a default: current tables vs pinned lexicon", case, mdyn, dyn)
     # ---- oracle on the implementation's XForm
     if obs["stray"]:
         ctx.fail(Failure("stray-set-node", f"set-node outside model / repeat / control: {obs['stray'][:2]}", case))
@@ -278,8 +280,6 @@ def form_case(ctx, els, directed=None):
         tmpl = [l[2] for l in leaves if l[1]]
         sets = [s for s in obs["sets"] if s[2] == p and s[1] == "setvalue"]
         is_dyn = bool(q["default"]) and dyn.get(q["name"])
-        if q["default"] and dyn.get(q["name"]) is None:
-            continue
         cls = "none" if not q["default"] else ("dynamic" if is_dyn else "static")
         ctx.count(f"default:{q.get('dclass', '?')}:{cls}:{'repeat' if reps else 'flat'}")
         exp_text = q["default"] if cls == "static" else ""
@@ -361,7 +361,7 @@ def directed_forms():
 def explore(ctx, factor, bs):
     rng = ctx.rng
     # lexer correspondence
-    n_lex = ctx.pick(24000, 400000) * factor
+    n_lex = ctx.pick(24000, 400000) * (1 if factor == 1 else 2)
     batch = []
     for _ in range(n_lex):
         batch.append((LG.token_string(rng), rng.choice(LG.TYPES)))
